@@ -15,7 +15,7 @@ Units
   box1      1-D axis alphabet x ALL aligned boxes [i,j) x face formula, all
             quarter-point boxes, boxes reaching outside: mesh[R], field[R],
             region2slices
-  boxnd     2-/3-D meshes: all boxes on one axis x box selector on the others
+  boxnd     2-4-D meshes: all boxes on one axis x box selector on the others
   range1    1-D axis alphabet x ALL pairs of probes (faces, centres, quarter
             points), reversed pairs, pairs with a bound outside: Field.sel
   rangesub  1-3-D meshes x subregion layout x axis x ALL pairs of centres and
@@ -54,12 +54,18 @@ ASSUMPTIONS = [
     "extraction by an ALIGNED box (both faces of every axis within tau of lattice faces i<j) must return exactly the "
     "cells i..j-1 (statement: smallest block of whole cells containing the region; the box IS a block of whole cells)",
     "result lattice alignment: every result cell centre within 64 ulp(M) + 1e-9 cell of a source cell centre",
-    "region2slices for boxes that are not aligned is only required to lie between the cells wholly inside the box "
-    "and the cells intersecting it (its documentation speaks of cells contained in the region)",
+    "region2slices must return exactly the cells i..j-1 for aligned boxes; for boxes that are not whole cells it is "
+    "only required to lie between the cells wholly inside the box and the cells intersecting it (its documentation "
+    "speaks of cells contained in the region) and may refuse; slices returned for a box that reaches outside the "
+    "mesh region are recorded (notes) but not flagged - the statement's refusal clause is applied to the extraction "
+    "and selection operations only",
     "reversed range pairs may be refused or must equal the ordered pair; result labels/units of the value dimension "
     "are not part of this property; content of clipped subregions after sel is C14's business (here: no refusal)",
     "padding reference = numpy.pad with the same mode on data and on the mask (statement: padding cells follow the "
-    "padding mode); only default keyword arguments of the modes are used",
+    "padding mode); only default keyword arguments of the modes are used; for mode 'constant' the validity of the "
+    "filled cells is not prescribed (a constant fill copies no source cell), only their value 0",
+    "plane selection along the only axis of a 1-D mesh cannot return a field on a 0-D mesh: the returned value must "
+    "be the one of the selected cell; the missing field/validity is reported under its own signatures",
 ]
 
 # --------------------------------------------------------------------------
@@ -456,7 +462,7 @@ def _pick(ctx, name, pts, start, stop):
 def unit_box1(ctx):
     kind = ctx.choose("kind", ["aligned", "arbitrary", "outside"])
     if kind == "aligned":  # rounding of the faces decides: every scale
-        axes = _axis1(ctx, _tier(ctx, CNT_Q, CNT_T), _tier(ctx, SCL_Q, SCL_T))
+        axes = _axis1(ctx, _tier(ctx, CNT_T[:6], CNT_T), _tier(ctx, SCL_Q, SCL_T))
     else:
         axes = _axis1(ctx, _tier(ctx, CNT_Q[:4], CNT_T), _tier(ctx, SCL_Q[:2], SCL_Q))
     mesh = _mesh(axes)
@@ -514,7 +520,7 @@ def _nd_mesh(ctx, fam_q, fam_t, with_dims=True, scales=(1.0, 1e-9), dims_quick=N
 def unit_boxnd(ctx):
     nd = ctx.choose("ndim", [2, 3, 4])
     fam = {2: (M2_Q, M2_M), 3: (M3_Q, M3_S), 4: (M4_Q, M4_T[:3])}[nd]
-    idx, dims, axes = _nd_mesh(ctx, fam[0], fam[1], dims_quick=2, dims_max=2,
+    idx, dims, axes = _nd_mesh(ctx, fam[0], fam[1], dims_quick=1, dims_max=2,
                                scales=_tier(ctx, (1.0,), (1.0, 1e-9)), scale_choice=True)
     mesh = _mesh(axes, dims)
     geo = Geo(mesh)
@@ -718,7 +724,7 @@ def unit_rangesub(ctx):
     idx, dims, axes = _nd_mesh(ctx, fam[0], fam[1], with_dims=False, scales=_tier(ctx, (1.0,), (1.0, 1e-9, 1e3)),
                                scale_choice=True)
     ax = ctx.choose("axis", list(range(nd)))
-    layout = ctx.choose("layout", LAYOUTS[1:])
+    layout = ctx.choose("layout", _tier(ctx, LAYOUTS[1:4], LAYOUTS[1:]))
     var = ctx.choose("subface", ["near", "mul"])
     mesh, boxes = _sub_mesh(ctx, axes, dims, layout, ax, var)
     geo = Geo(mesh)
@@ -941,7 +947,8 @@ def unit_name(ctx):
 def unit_pad(ctx):
     nd = ctx.choose("ndim", [1, 2, 3, 4])
     fam = {1: (M1_Q, M1_T), 2: (M2_Q, M2_T[:20]), 3: (M3_Q[:2], M3_S[:5]), 4: (M4_Q, M4_T[:3])}[nd]
-    idx, dims, axes = _nd_mesh(ctx, fam[0], fam[1], with_dims=True, scales=(1.0, 1e-9), dims_max=1 if nd == 4 else None)
+    idx, dims, axes = _nd_mesh(ctx, fam[0], fam[1], with_dims=True, scales=_tier(ctx, (1.0,), (1.0, 1e-9)),
+                               scale_choice=True, dims_max=1 if nd == 4 else None)
     mesh = _mesh(axes, dims)
     geo = Geo(mesh)
     nv = ctx.choose("nvdim", [1, 3]) if nd == 1 else 2
